@@ -17,7 +17,7 @@ META = {
     "outside": ["more than 4 targets", "selections outside the pattern catalogue"],
 }
 
-PATS = {"chain2+sink": [(), ("N",), ("B",)], "chain3": [(), ("B",), ("A",), ("C", "A")], "fork3": [(), ("B",), ("C",)], "join3": [(), ("A",), ("C",)], "diamond4": [(), ("B",), ("D",)], "two-ends": [(), ("E",), ("B",)]}
+PATS = {"tri-rev": [(), ("M", "R"), ("T", "R")], "chain2+sink": [(), ("N",), ("B",)], "chain3": [(), ("B",), ("A",), ("C", "A")], "fork3": [(), ("B",), ("C",)], "join3": [(), ("A",), ("C",)], "diamond4": [(), ("B",), ("D",)], "two-ends": [(), ("E",), ("B",)]}
 
 
 def _q16(e0, e1, e2, e3, m0, m1, m2, m3, ms, now0, inc0, inc1, pi, hashing, hrec):
@@ -118,9 +118,9 @@ def q16(e0: bool, e1: bool, e2: bool, e3: bool, m0: int, m1: int, m2: int, m3: i
 
 QUERIES = [
     {"name": "Q16", "fn": q16,
-     "shards": {"quick": [{"shape": "chain3", "pi": k} for k in range(4)] + [{"shape": "fork3", "pi": 0}, {"shape": "fork3", "pi": 1}, {"shape": "join3", "pi": 0}, {"shape": "chain2+sink", "pi": 0}, {"shape": "chain2+sink", "pi": 1}],
-                "thorough": [{"shape": s, "pi": k} for s in ("chain3", "fork3", "join3", "diamond4", "two-ends", "chain2+sink") for k in range(len(PATS[s]))]},
+     "shards": {"quick": [{"shape": "chain3", "pi": k} for k in range(4)] + [{"shape": "fork3", "pi": 0}, {"shape": "fork3", "pi": 1}, {"shape": "join3", "pi": 0}, {"shape": "chain2+sink", "pi": 0}, {"shape": "chain2+sink", "pi": 1}, {"shape": "tri-rev", "pi": 0}, {"shape": "tri-rev", "pi": 1}],
+                "thorough": [{"shape": s, "pi": k} for s in ("chain3", "fork3", "join3", "diamond4", "two-ends", "chain2+sink", "tri-rev") for k in range(len(PATS[s]))]},
      "timeout": {"quick": 1500, "thorough": 3600},
-     "bound": "3 targets (chain with 4 selections, fork, join, chain ending in an output-less target; thorough adds diamond and two endpoints); existence and modification time (symbolic int <= start of the command) of every output and source, "
+     "bound": "3 targets (chain with 4 selections, fork, join, chain ending in an output-less target, triangle with a shortcut edge whose middle target sorts before the root; thorough adds diamond and two endpoints); existence and modification time (symbolic int <= start of the command) of every output and source, "
               "clock increments before successive touches symbolic >= 0 (two alternating values), spec hashing off / on with 3 record situations"},
 ]
